@@ -39,7 +39,10 @@ fn bfd_decode_total_and_exact() {
         }
         Err(_) => {
             assert!(!well_formed); // C03.bfd.complete_frame_consumed_or_rejected
-            kani::cover!(len >= MIN_LEN, "rejecting path reachable for full-size datagram");
+            kani::cover!(
+                len >= MIN_LEN,
+                "rejecting path reachable for full-size datagram"
+            );
         }
     }
     kani::cover!(true, "harness end reachable");
